@@ -36,8 +36,8 @@ ValOf(e, P, V) == Rr(V[FlatR(Proj(e, P), P, 1, 0) + 1])
 \* min(N, ceil(x)) for a positive rational x, as a native integer
 CeilClip(x, N) == LET c == RCeil(x) IN IF Le(FromInt(N), c) THEN N ELSE ToInt(c)
 Nearest(x) == RRound(x)
-\* x within rounding (2^-50 relative) of a whole number
-NearWhole(x) == RLe(RAbs(RSub(x, RInt(Nearest(x)))), RMul(RAbs(x), RPow2(-50)))
+\* x within rounding (2^-49 relative: a handful of double operations) of a whole number
+NearWhole(x) == RLe(RAbs(RSub(x, RInt(Nearest(x)))), RMul(RAbs(x), RPow2(-49)))
 ClipN(b, N) == IF Le(FromInt(N), b) THEN N ELSE IF b.n THEN 0 ELSE ToInt(b)
 
 (***************************************************************************)
